@@ -282,7 +282,8 @@ def rule_c(ctx):
                     last = st["lhs"]["p"][-1]
                     if isinstance(last, dict) and ends(last.get("o"), "Specificity"):
                         at = b.atoms(st["rv"]["use"]) if "use" in st["rv"] else set()
-                        if any(a[0] == "bin" and a[1].startswith("Add") for a in at) and ("int", 1) in at:
+                        plus = any(a[0] == "bin" and a[1].startswith("Add") for a in at) or has_call(at, "saturating_add", "checked_add", "wrapping_add")
+                        if plus and ("int", 1) in at and not any(a[0] == "bin" and a[1].startswith(("Sub", "Mul")) for a in at):
                             incs.add(last["n"])
                         else:
                             incs.add("?" + last["n"])
